@@ -18,9 +18,10 @@ def has_escape(text):
 
 
 def decode_params(params):
-    """'38:5:107;1' -> (fg, bg, frozenset(effects)); fg/bg as int 0..255 or None.
+    """'38:5:107;1' -> (fg, bg, frozenset(effects)).
 
-    Named colours 30-37/40-47 map to 0..7."""
+    fg/bg: None, ("c", 0..7) for the named colours 30-37/40-47, ("x", 0..255) for 38:5:n / 48:5:n
+    (kept apart: the package promises the escape sequence of the description, not a hue)."""
     fg = None
     bg = None
     eff = set()
@@ -33,16 +34,16 @@ def decode_params(params):
             f = part.split(":")
             if len(f) == 3 and f[1] == "5" and f[0] in ("38", "48"):
                 if f[0] == "38":
-                    fg = int(f[2])
+                    fg = ("x", int(f[2]))
                 else:
-                    bg = int(f[2])
+                    bg = ("x", int(f[2]))
                 continue
             raise ValueError(f"unknown SGR parameter {part!r}")
         n = int(part)
         if 30 <= n <= 37:
-            fg = n - 30
+            fg = ("c", n - 30)
         elif 40 <= n <= 47:
-            bg = n - 40
+            bg = ("c", n - 40)
         elif n == 1:
             eff.add("bold")
         elif n == 2:
